@@ -18,7 +18,8 @@ SEQS = [["list", ["uint", 8], 1024], ["list", ["uint", 1], 2048], ["vec", ["uint
 RULE = ("17 sequence / bitfield / container types + random ones x values whose lengths sweep 0..2^d+1 for d<=6 "
         "(thorough: all of them; quick: a sample) so the stack iterators cross every subtree boundary, + random values; "
         "read paths: len, x[i] for every i, in-range slices (all (a, b) for short sequences, else both empty ends, whole, "
-        "prefixes, suffixes, omitted bounds and random inner ones), iter(), readonly_iter(), container iteration, bit "
+        "prefixes, suffixes, omitted bounds and random inner ones), iter(), the same iterator object walked again (after a full walk and "
+        "after a walk abandoned part-way), readonly_iter(), container iteration, bit "
         "iteration, to_obj — compared with the model's get and iterator machines and (model-free) with each other; "
         "pairs (equal content via different routes / one-element difference) for == and hash; "
         "non-trivial = length >= 2")
@@ -96,6 +97,33 @@ def slices_disagree(x, idx, conv, seed):
     return None
 
 
+def rewalk_disagrees(mk_iter, idx, conv):
+    """the same iterator OBJECT walked again — after a complete walk and after a walk abandoned part-way (the stack
+    iterators reset themselves in __iter__) — presents the same content"""
+    it = attempt(mk_iter, anyerr=True)
+    if isinstance(it, E) or not hasattr(it, "__iter__") or iter(it) is not it:
+        return None
+    first = attempt(lambda: [conv(z) for z in it], anyerr=True)
+    if first != idx:
+        return None          # reported by the single-walk comparison
+    again = attempt(lambda: [conv(z) for z in it], anyerr=True)
+    if again != idx:
+        return "walking the same read-only iterator a second time presents other content"
+    stop = (2 * len(idx)) // 3
+    if stop:
+        def partial_then_full():
+            k = 0
+            for _ in it:
+                k += 1
+                if k == stop:
+                    break
+            return [conv(z) for z in it]
+        third = attempt(partial_then_full, anyerr=True)
+        if third != idx:
+            return "re-walking a read-only iterator abandoned after %d elements presents other content" % stop
+    return None
+
+
 def build(inp):
     t, v, w = inp["t"], inp["v"], inp["w"]
     x, y = to_py(t, v), to_py(t, w)
@@ -112,6 +140,8 @@ def build(inp):
             why = "iter() disagrees with indexing"
         elif slices_disagree(x, idx, lambda z: elem_obs(e, z), ll):
             why = slices_disagree(x, idx, lambda z: elem_obs(e, z), ll)
+        elif rewalk_disagrees(lambda: x.readonly_iter(), idx, lambda z: elem_obs(e, z)):
+            why = rewalk_disagrees(lambda: x.readonly_iter(), idx, lambda z: elem_obs(e, z))
         elif len(ob) != ll:
             why = "to_obj() length disagrees with len()"
         elif is_basic(e) and e[0] == "uint" and e[1] <= 8 and [int(z) for z in ob] != [int.from_bytes(z, "little") for z in idx]:
@@ -121,7 +151,7 @@ def build(inp):
         ll = len(x)
         idx = [bool(x[i]) for i in range(ll)]
         it = attempt(lambda: [bool(z) for z in iter(x)], anyerr=True)
-        why = slices_disagree(x, idx, bool, ll)
+        why = slices_disagree(x, idx, bool, ll) or rewalk_disagrees(lambda: iter(x), idx, bool)
         reads = [ll, idx, it]
     else:
         ll = len(t[1])
